@@ -111,6 +111,12 @@ def gen_tree(rng: random.Random, era=None, p_inf=0.0) -> dict:
         "kind": "node",
         "children": {f"z{i}": gen_leaf(rng, always=True, allow_null=False, **L) for i in range(rng.randint(2, 4))},
     }
+    # a group whose members are named by numbers of one and two digits (ranks, numbers of
+    # children, ...): key vectors then come as integers, or as an object array of text
+    tree["ranks"] = {
+        "kind": "node",
+        "children": {n: gen_leaf(rng, always=True, allow_null=False, **L) for n in ["1", "2", "9", "10", "11", "12"][: rng.randint(4, 6)]},
+    }
     tree["nz"] = {
         "kind": "node",
         "children": {
